@@ -96,6 +96,9 @@ class Table(dict):
             return
         if self.has_index():
             buffer_df = pd.DataFrame(self.buffer, columns=self.columns)
+            # several buffered rows for one key: the last inserted wins, as if each had been committed on its own
+            keys = pd.MultiIndex.from_frame(buffer_df[list(self.idx_cols)])
+            buffer_df = buffer_df[~keys.duplicated(keep='last')]
             buffer_df = self._create_index_from_cols(buffer_df, self.idx_cols)
 
             # Update existing rows and append new rows
